@@ -63,6 +63,7 @@ func (x *Exec) wakeRecv(g *G, caseIdx int, val Value, ok bool) {
 		panic("wakeRecv on " + instr.String())
 	}
 	fr.pc++
+	fr.visits = nil
 	g.wait = wNone
 	g.wcases = nil
 }
@@ -81,6 +82,7 @@ func (x *Exec) wakeSend(g *G, caseIdx int) Value {
 		panic("wakeSend on " + instr.String())
 	}
 	fr.pc++
+	fr.visits = nil
 	g.wait = wNone
 	g.wcases = nil
 	g.wval = nil
@@ -189,6 +191,7 @@ func (x *Exec) execSend(g *G, fr *Frame, in *ssa.Send) bool {
 	}
 	if done {
 		fr.pc++
+		fr.visits = nil
 		return x.maybePreempt(g)
 	}
 	g.wch = ch
@@ -207,6 +210,7 @@ func (x *Exec) execRecv(g *G, fr *Frame, in *ssa.UnOp) bool {
 			x.set(fr, in, v)
 		}
 		fr.pc++
+		fr.visits = nil
 		return x.maybePreempt(g)
 	}
 	g.wch = ch
@@ -265,6 +269,9 @@ func (x *Exec) execSelect(g *G, fr *Frame, in *ssa.Select) bool {
 			x.set(fr, in, x.selectResult(in, pick, v, ok))
 		}
 		fr.pc++
+		if in.Blocking {
+			fr.visits = nil
+		}
 		return x.maybePreempt(g)
 	}
 	if !in.Blocking {
